@@ -184,6 +184,7 @@ def p_abs(itp, name, args, kw, node, st):
     if n is None:
         return mk(itp, 'abs', v)
     r = n.copy(cplx=False, rv=True, nonneg=True)
+    r.intdt = n.intdt
     if n.q is not None and n.q != 'any':
         r.q = Aff(0)
     if not n.zero and n.log is None:
@@ -256,6 +257,7 @@ def p_sum(itp, name, args, kw, node, st):
                 num_add(itp, n, s0, node, 'add')
     r = n.copy()
     r.ex = None
+    r.intdt = n.intdt and not name.endswith('mean')
     if itp.d4:
         from . import charge as Q
         if n.shape is not None and len(n.shape) == 1:
@@ -342,6 +344,11 @@ def p_maxmin(itp, name, args, kw, node, st):
             r = ints[0]
             for i in ints[1:]:
                 a = (aff_max if ismax else aff_min)(r.a, i.a) if (r.a is not None and i.a is not None) else None
+                if a is None and r.a is not None and i.a is not None:
+                    # the order of the two sizes is not known: a named integer (>= / <= both) stands for the result
+                    nm = '%s(%s,%s)' % ('max' if ismax else 'min', r.a, i.a)
+                    Aff.SYM_MIN[nm] = 1
+                    a = Aff.sym(nm)
                 r = IntV(a, r.taint | i.taint)
             if r.a is not None and r.a.is_const():
                 return Const(int(r.a.c), r.taint)
@@ -719,6 +726,8 @@ def p_array(itp, name, args, kw, node, st):
                 return Num(top_deg(), None, None, taint=v.taint)
             return mk(itp, 'array', v)
         r = n.copy()
+        if dt is None or (isinstance(dt, Const) and dt.v is None):
+            r.intdt = n.intdt          # np.array / asarray keep an integer dtype
     if r.shape == () and isinstance(v, (Tup, SeqV)):
         r.shape = (Aff(len(v.items)),) if isinstance(v, Tup) else (None,)
     if itp.d4 and isinstance(v, Tup) and v.items:
@@ -896,6 +905,10 @@ def p_pad(itp, name, args, kw, node, st):
         r.q = None
     m = mode.v if isinstance(mode, Const) else None
     src = args[0] if isinstance(args[0], Num) else None
+    if src is not None and src.seg is not None and total is not None and m == 'constant' \
+            and arg(args, kw, 3, 'constant_values') in (None,) :
+        from . import segmap
+        r.seg = segmap.normalise([segmap.Seg(b, '0', 0, 1)] + list(src.seg) + [segmap.Seg(a, '0', 0, 1)])
     if src is not None and src.seg is not None and total is not None and m in ('reflect', 'symmetric'):
         from . import segmap
         off = 1 if m == 'reflect' else 0        # reflect does not repeat the edge sample
@@ -910,6 +923,7 @@ def p_pad(itp, name, args, kw, node, st):
         if all(p_ is not None for p_ in parts):
             r.seg = segmap.concat(parts)
     USED.add('numpy.pad(a, (b, a), mode=reflect|symmetric): mirrored copies of the edge samples (reflect skips the edge itself)')
+    itp.events.append(('padded', node, r, itp.cur.qname if itp.cur else ''))
     return r
 
 
@@ -1164,7 +1178,6 @@ def p_trig(itp, name, args, kw, node, st):
     return r
 
 
-@prim('numpy.multiply')
 def p_multiply(itp, name, args, kw, node, st):
     a, b = N(args[0]), N(args[1])
     if a is None or b is None:
@@ -1322,6 +1335,7 @@ def p_lstsq(itp, name, args, kw, node, st):
     x.shape = (A.shape[1],) if (A.shape is not None and len(A.shape) == 2) else (None,)
     x.ex = None
     x.nonneg = False
+    x.neg = bool(A.neg) != bool(b.neg)          # the minimiser of |(-A) x - b| is minus the minimiser of |A x - b|
     if itp.d4:
         from . import charge as Q
         x.q = Q.lstsq_q(itp, A.q, b.q, node) if Q.is_lin2(A.q) else (x.q if isinstance(x.q, Aff) or x.q == 'any' else None)
@@ -1554,11 +1568,33 @@ def _binop_prim(opcls):
         elementwise_seg(op, args[0], args[1], r)
         origin_of(args[0], args[1], r, op)
         grid_of(args[0], args[1], r, op)
+        _ufunc_out(itp, node, kw, args, r, st)
         return r
     return h
 
 
+def _ufunc_out(itp, node, kw, args, r, st):
+    """ufunc(..., out=name) (or a third positional argument): the result is written into that array in place"""
+    o = kw.get('out') if 'out' in kw else (args[2] if len(args) > 2 else None)
+    if o is None or (isinstance(o, Const) and o.v is None) or st is None or not isinstance(node, ast.Call):
+        return
+    onode = None
+    for k_ in node.keywords:
+        if k_.arg == 'out':
+            onode = k_.value
+    if onode is None and len(node.args) > 2:
+        onode = node.args[2]
+    if isinstance(onode, ast.Name) and isinstance(o, Num) and isinstance(r, Num) and onode.id in st.env:
+        fn = itp.cur.qname if itp.cur else ''
+        itp.events.append(('store-aug', node, o.shape, taint_of(r) | itp.pc, frozenset(), fn))
+        if o.view_of:
+            itp.events.append(('inplace', node, o.view_of, fn))
+        itp.written(onode.id, o, r, st, node)
+        st.env[onode.id] = r
+
+
 PRIMS['numpy.add'] = _binop_prim(ast.Add)
+PRIMS['numpy.multiply'] = _binop_prim(ast.Mult)
 PRIMS['numpy.subtract'] = _binop_prim(ast.Sub)
 PRIMS['numpy.divide'] = PRIMS['numpy.true_divide'] = _binop_prim(ast.Div)
 PRIMS['numpy.floor_divide'] = _binop_prim(ast.FloorDiv)
@@ -1575,19 +1611,27 @@ def p_negative(itp, name, args, kw, node, st):
     n = N(v)
     if n is None:
         return mk(itp, name, v)
-    if name.endswith('positive'):
-        return n.copy()
-    return itp.binop(ast.Mult(), Const(-1), v, node)
+    from .interp_expr import unary_value
+    r = unary_value(itp, ast.UAdd() if name.endswith('positive') else ast.USub(), v, node)
+    _ufunc_out(itp, node, kw, [args[0], None] + list(args[1:]), r, st)
+    return r
 
 
 @prim('numpy.square')
 def p_square(itp, name, args, kw, node, st):
-    return itp.binop(ast.Mult(), args[0], args[0], node)
+    from .interp_expr import elementwise_seg
+    r = itp.binop(ast.Mult(), args[0], args[0], node)
+    elementwise_seg(ast.Mult(), args[0], args[0], r)
+    _ufunc_out(itp, node, kw, [args[0], None] + list(args[1:]), r, st)
+    return r
 
 
 @prim('numpy.reciprocal')
 def p_reciprocal(itp, name, args, kw, node, st):
-    return itp.binop(ast.Div(), Const(1.0), args[0], node)
+    from .interp_expr import elementwise_seg
+    r = itp.binop(ast.Div(), Const(1.0), args[0], node)
+    elementwise_seg(ast.Div(), Const(1.0), args[0], r)
+    return r
 
 
 @prim('numpy.maximum', 'numpy.minimum', 'numpy.fmax', 'numpy.fmin')
@@ -1698,3 +1742,27 @@ PRIMS['scipy.fft.ifftshift'] = PRIMS['numpy.fft.ifftshift']
 PRIMS['scipy.fftpack.fftshift'] = PRIMS['numpy.fft.fftshift']
 PRIMS['scipy.fftpack.ifftshift'] = PRIMS['numpy.fft.ifftshift']
 PRIMS['scipy.linalg.svd'] = PRIMS['numpy.linalg.svd']
+
+
+@prim('numpy.fromiter')
+def p_fromiter(itp, name, args, kw, node, st):
+    return p_array(itp, 'numpy.array', [args[0]], {}, node, st)
+
+
+PRIMS['numpy.matmul'] = lambda itp, name, args, kw, node, st: p_bilinear(itp, 'numpy.dot', args, kw, node, st)
+
+
+@prim('numpy.real_if_close')
+def p_real_if_close(itp, name, args, kw, node, st):
+    """complex input comes back REAL when all imaginary parts are tiny: the dtype of the result depends on the values"""
+    n = N(args[0])
+    if n is None:
+        return mk(itp, name, *args)
+    r = n.copy()
+    if n.cplx is not False:
+        r.cplx = None
+        itp.events.append(('dtype-by-value', node, name, itp.cur.qname if itp.cur else ''))
+    if isinstance(args[0], Num) and args[0].seg is not None:
+        r.seg = list(args[0].seg)
+        r.segax = args[0].segax
+    return r
